@@ -1,0 +1,26 @@
+//go:build verif
+
+package gomatrixserverlib
+
+import "github.com/matrix-org/gomatrixserverlib/spec"
+
+// This file is compiled only with the "verif" build tag. It exposes the
+// unexported, reusable auth checker (allowerContext) to the external
+// verification harness, driven exactly as state resolution drives it:
+// one provider that is cleared and refilled, update(), allowed().
+
+// VerifAllower wraps an allowerContext.
+type VerifAllower struct {
+	a *allowerContext
+}
+
+// NewVerifAllower creates the reusable checker for a provider.
+func NewVerifAllower(provider AuthEventProvider, userIDForSender spec.UserIDForSender, roomID spec.RoomID) *VerifAllower {
+	return &VerifAllower{a: newAllowerContext(provider, userIDForSender, roomID)}
+}
+
+// Update tells the checker that the provider contents may have changed.
+func (v *VerifAllower) Update(provider AuthEventProvider) { v.a.update(provider) }
+
+// Allowed checks an event against the provider through the reused checker.
+func (v *VerifAllower) Allowed(event PDU) error { return v.a.allowed(event) }
